@@ -8,7 +8,7 @@ from bip_utils import (ElectrumV1, ElectrumV2Standard, ElectrumV2Segwit, Brainwa
                        Bip32KeyIndex, Secp256k1PrivateKey, Ed25519PrivateKey, SolAddrEncoder, Base58Encoder, Bip32Slip10Secp256k1)
 from bip_utils.ecc.ed25519.lib import ed25519_lib
 
-LEAN_MODULES = ["BipVerif.Props.C20"]
+LEAN_MODULES = ["BipVerif.Props.C20", "BipVerif.Props.C04Group"]
 N = 0xFFFFFFFFFFFFFFFFFFFFFFFFFFFFFFFEBAAEDCE6AF48A03BBFD25E8CD0364141
 
 
@@ -55,6 +55,135 @@ def sol_addr(rng):
     return SolAddrEncoder.EncodeKey(Ed25519PrivateKey.FromBytes(bytes(rng.randrange(256) for _ in range(32))).PublicKey())
 
 
+# ---- SPL program-derived addresses with LONG runs of discarded candidates -------------------------------------------------------------
+# Every candidate digest is a valid ed25519 point with probability ~1/2, so an input whose first k candidates (bumps 255, 254, …) are all
+# discarded has probability 2^-k: random inputs never walk more than a dozen steps down. The reference below is the statement itself with
+# hashlib and integer arithmetic only (a 32-byte string is a valid point iff (y^2 - 1)/(d y^2 + 1) is a square mod 2^255 - 19).
+_P = 2**255 - 19
+_D = (-121665 * pow(121666, _P - 2, _P)) % _P
+_B58 = "123456789ABCDEFGHJKLMNPQRSTUVWXYZabcdefghijkmnopqrstuvwxyz"
+ATA_PROGRAM = "ATokenGPvbdGVxr1b2hvZbsiqW5xWH25efTNsLJA8knL"
+TOKEN_PROGRAM = "TokenkegQfeZyiNwAJbNbGKPFXCWuBvf9Ss623VQ5DA"
+_MARK = b"ProgramDerivedAddress"
+
+
+def b58e(b):
+    n, out = int.from_bytes(b, "big"), ""
+    while n:
+        n, r = divmod(n, 58)
+        out = _B58[r] + out
+    return "1" * (len(b) - len(b.lstrip(b"\x00"))) + out
+
+
+def b58d32(a):
+    n = 0
+    for ch in a:
+        n = n * 58 + _B58.index(ch)
+    return n.to_bytes(32, "big")
+
+
+def ref_is_point(b):
+    y = int.from_bytes(b, "little") & ((1 << 255) - 1)
+    yy = y * y % _P
+    t = (yy - 1) * (_D * yy + 1) % _P
+    return t == 0 or pow(t, (_P - 1) // 2, _P) == 1
+
+
+def ref_find_pda(seeds, prog_bytes):
+    """(address, bump) of the first candidate, from bump 255 downward, that is not a valid point"""
+    pre = hashlib.sha256(b"".join(seeds))
+    for bump in range(255, 0, -1):
+        h = pre.copy()
+        h.update(bytes([bump]) + prog_bytes + _MARK)
+        d = h.digest()
+        if not ref_is_point(d):
+            return b58e(d), bump
+    return None, 0
+
+
+def _fast_is_point(b):
+    """search filter only (libsodium's point decoding through the nacl bindings, ~10x faster than the integer test): it chooses WHICH inputs
+    are looked at; what the answer must be always comes from ref_find_pda"""
+    try:
+        from nacl import bindings as nb
+    except Exception:  # noqa
+        return ref_is_point(b)
+    try:
+        nb.crypto_core_ed25519_add(b, (1).to_bytes(32, "little"))
+        return True
+    except Exception:  # noqa
+        return False
+
+
+def _run_length(seeds, prog_bytes, cap=64):
+    pre = hashlib.sha256(b"".join(seeds))
+    k = 0
+    while k < cap:
+        h = pre.copy()
+        h.update(bytes([255 - k]) + prog_bytes + _MARK)
+        if not _fast_is_point(h.digest()):
+            break
+        k += 1
+    return k
+
+
+_WALLET_KEY = hashlib.sha256(b"verif-wallet").digest()
+# (counter, candidates discarded) found by an off-line sweep of 90 / 12 million counters; the run length is re-computed with the reference on
+# every run, nothing but the counter is taken from here
+LONG_RUN_PDA = [(82131, 15), (124255, 15), (184747, 16), (208004, 16), (89282, 17), (401627, 17), (575083, 18), (776874, 18), (1020886, 19), (3398183, 19),
+                (4316250, 20), (512225, 21), (1445095, 21), (2884384, 21), (3939322, 21), (25519022, 23), (9656076, 24), (2193103, 25), (86488354, 26),
+                (7159963, 28)]
+LONG_RUN_ATA = [(98860, 15), (316331, 15), (140588, 16), (360072, 16), (334644, 17), (870437, 17), (93654, 18), (679684, 18), (1573962, 19), (2893847, 19),
+                (10481861, 20), (11573872, 20), (4858534, 21), (482934, 22), (5509237, 25)]
+
+
+def long_run_inputs():
+    """[("pda", seeds, program address) | ("ata", wallet, mint, token program)] whose first 15 … 28 candidates are all valid points"""
+    out = []
+    for j, (c, _k) in enumerate(LONG_RUN_PDA):
+        c8 = c.to_bytes(8, "little")
+        seeds = ([b"verif-pda", c8], [b"verif", b"-pda", c8[:3], c8[3:]], [b"verif-pda" + c8], [b"", b"verif-pda", c8, b""])[j % 4]
+        out.append(("pda", seeds, TOKEN_PROGRAM))
+    wallet = SolAddrEncoder.EncodeKey(Ed25519PrivateKey.FromBytes(_WALLET_KEY).PublicKey())
+    for c, _k in LONG_RUN_ATA:
+        out.append(("ata", wallet, b58e(hashlib.sha256(b"verif-mint" + c.to_bytes(8, "little")).digest()), TOKEN_PROGRAM))
+    return out
+
+
+def search_long_runs(rng, tries, keep=6):
+    """random (seeds, program) and (wallet, mint, token program) inputs; the `keep` longest runs of discarded candidates seen are returned"""
+    best = []
+    progs = [TOKEN_PROGRAM, ATA_PROGRAM, sol_addr(rng)]
+    wallet = sol_addr(rng)
+    wb, tb, ab = b58d32(wallet), b58d32(TOKEN_PROGRAM), b58d32(ATA_PROGRAM)
+    pbs = [b58d32(x) for x in progs]
+    tag = bytes(rng.randrange(256) for _ in range(rng.randrange(1, 12)))
+    for i in range(tries):
+        c = rng.getrandbits(64).to_bytes(8, "little")
+        if i % 2:
+            mint = hashlib.sha256(tag + c).digest()
+            if not _fast_is_point(mint):
+                continue
+            k = _run_length([wb, tb, mint], ab)
+            item = ("ata", wallet, b58e(mint), TOKEN_PROGRAM)
+        else:
+            j = i // 2 % len(progs)
+            seeds = [tag, c] if i % 4 else [tag + c[:5], c[5:], b""]
+            k = _run_length(seeds, pbs[j])
+            item = ("pda", seeds, progs[j])
+        if len(best) < keep or k > best[-1][0]:
+            best.append((k, i, item))
+            best.sort(key=lambda x: (-x[0], x[1]))
+            del best[keep:]
+    return [it for _k, _i, it in best]
+
+
+def long_run_case(item):
+    if item[0] == "pda":
+        return Case("findpda", [";".join(hx(x) if x else "-" for x in item[1]), tx(item[2])], "spl-pda-long-run")
+    return Case("splata", [tx(item[1]), tx(item[2]), tx(item[3])], "spl-ata-long-run")
+
+
 def gen(rng, tier):
     n = 60 if tier == "quick" else 4000
     for i in range(n):
@@ -97,6 +226,11 @@ def gen(rng, tier):
         yield Case("splata", [tx(w), tx(m), tx(t)], "spl-ata")
         seeds = [bytes(rng.randrange(256) for _ in range(rng.choice([0, 1, 8, 32]))) for _ in range(rng.randrange(0, 5))]
         yield Case("findpda", [";".join(hx(s) for s in seeds) if seeds else "-", tx(rng.choice([w, "ATokenGPvbdGVxr1b2hvZbsiqW5xWH25efTNsLJA8knL"]))], "spl-pda")
+    # long runs of discarded candidates (15 … 28 from the pinned counters, plus the longest found by a random search): the model walks down too
+    for item in long_run_inputs() + search_long_runs(rng, 6000 if tier == "quick" else 400000):
+        if item[0] == "pda" and any(len(x) == 0 for x in item[1]):
+            continue        # an empty seed has no spelling inside a ';'-joined request field; the relation below covers those
+        yield long_run_case(item)
     yield Case("findpda", [";".join(hx(bytes(1)) for _ in range(17)), tx("ATokenGPvbdGVxr1b2hvZbsiqW5xWH25efTNsLJA8knL")], "neg-spl")
     yield Case("findpda", [hx(bytes(33)), tx("ATokenGPvbdGVxr1b2hvZbsiqW5xWH25efTNsLJA8knL")], "neg-spl")
     yield Case("splata", [tx("notbase58!"), tx(sol_addr(rng)), tx(sol_addr(rng))], "neg-spl")
@@ -199,5 +333,33 @@ def relations(rng, tier, rpt):
         if again != want or seeds != kept:
             rep("FindPda on the same seeds list a second time answers differently / changes the caller's list",
                 "%s seeds=%s" % (prog, [x.hex() for x in kept]), "again=%s list-now=%d items" % (again, len(seeds)), str(want))
+    # SPL: inputs on which MANY candidates have to be discarded before the first one that is not a valid point (pinned 15 … 28 deep, and the
+    # deepest of a random search): every entry point returns the reference's address, however long the walk down from bump 255
+    pinned = long_run_inputs()
+    pinned = [x for i in range(len(pinned)) for x in ([y for y in pinned if y[0] == "pda"][i:i + 1] + [y for y in pinned if y[0] == "ata"][i:i + 1])]
+    items = pinned + search_long_runs(rng, 20000 if tier == "quick" else 1500000, keep=8)
+    deepest = 0
+    for item in items:
+        if item[0] == "pda":
+            seeds, prog = list(item[1]), item[2]
+            want, bump = ref_find_pda(seeds, b58d32(prog))
+            calls = [("SplToken.FindPda(%s, %s)" % ([x.hex() for x in seeds], prog), lambda: SplToken.FindPda(list(seeds), prog))]
+        else:
+            _, w, m, t = item
+            want, bump = ref_find_pda([b58d32(w), b58d32(t), b58d32(m)], b58d32(ATA_PROGRAM))
+            calls = [("SplToken.GetAssociatedTokenAddress(%s, %s)" % (w, m), lambda: SplToken.GetAssociatedTokenAddress(w, m)),
+                     ("SplToken.GetAssociatedTokenAddressWithProgramId(%s, %s, %s)" % (w, m, t), lambda: SplToken.GetAssociatedTokenAddressWithProgramId(w, m, t)),
+                     ("SplToken.FindPda([wallet, token program, mint] of %s %s, associated-token program)" % (w, m),
+                      lambda: SplToken.FindPda([b58d32(w), b58d32(t), b58d32(m)], ATA_PROGRAM))]
+        if want is None:
+            continue
+        deepest = max(deepest, 255 - bump)
+        for name, f in calls:
+            n += 1
+            got = opt(f)
+            if got != want:
+                rep("the SPL address is not the first SHA-256 candidate, from bump 255 downward, that is not a valid ed25519 point "
+                    "(%d candidates are valid points and have to be discarded first; reference bump %d)" % (255 - bump, bump), name, str(got), want)
+    rpt.extra["spl_longest_discarded_run"] = deepest
     rpt.extra["impl_relation_checks"] = n
     return bad[:6]
